@@ -20,6 +20,10 @@ Theorem coverage_sound : forall names, coverage_ok names = true -> names = seven
 Proof. exact Arch.CcOk.coverage_ok_sound. Qed.
 Print Assumptions coverage_sound.
 
+Theorem coverage_complete : forall names, names = seven -> coverage_ok names = true.
+Proof. exact Arch.CcOk.coverage_ok_complete. Qed.
+Print Assumptions coverage_complete.
+
 (* the hypotheses are satisfiable: a correct table (System V x86-64) passes and therefore satisfies C20 *)
 Example cc_ok_example : cc_ok example_amd64 = true.
 Proof. exact Arch.C20Example.example_amd64_ok. Qed.
